@@ -31,3 +31,7 @@ ASSUMPTIONS = [
 
 def run(ctx):
     return vnetcase.run_check(ctx, "C05")
+
+
+def search(ctx, res, broken):
+    return vnetcase.search(ctx, res, broken, "C05")
